@@ -13,8 +13,8 @@ package gocty
 //@   writes Int (reflect.Value.ptr target)
 //@   let c (select F.math/big.Float bf)
 //@   let bits (rt_bits (rv_type target))
-//@   ensures[C18] representable_iff: (= (= result nil.Any) (and (= (bf.acc64 c) 0) (<= (int_min bits) (bf.int64 c)) (<= (bf.int64 c) (int_max bits))))
-//@   ensures[C18] stored: (=> (= result nil.Any) (= (select $H<Int> (reflect.Value.ptr target)) (bf.int64 c)))
+//@   ensures[C18] representable_iff: (= (= result nil.Any) (and (= (bf.inf c) 0) (is_int (bf.val c)) (<= (to_real (int_min bits)) (bf.val c)) (<= (bf.val c) (to_real (int_max bits)))))
+//@   ensures[C18] stored: (=> (= result nil.Any) (and (= (to_real (select $H<Int> (reflect.Value.ptr target))) (bf.val c)) (= (select $H<Int> (reflect.Value.ptr target)) (bf.int64 c))))
 //@   ensures[C18] untouched: (=> (not (= result nil.Any)) (= (select $H<Int> (reflect.Value.ptr target)) (select (old $H<Int>) (reflect.Value.ptr target))))
 //
 //@ func gocty.fromCtyNumberUInt
@@ -24,8 +24,8 @@ package gocty
 //@   writes Int (reflect.Value.ptr target)
 //@   let c (select F.math/big.Float bf)
 //@   let bits (rt_bits (rv_type target))
-//@   ensures[C18] representable_iff: (= (= result nil.Any) (and (= (bf.accu64 c) 0) (<= (bf.uint64 c) (uint_max bits))))
-//@   ensures[C18] stored: (=> (= result nil.Any) (= (select $H<Int> (reflect.Value.ptr target)) (bf.uint64 c)))
+//@   ensures[C18] representable_iff: (= (= result nil.Any) (and (= (bf.inf c) 0) (is_int (bf.val c)) (<= 0.0 (bf.val c)) (<= (bf.val c) (to_real (uint_max bits)))))
+//@   ensures[C18] stored: (=> (= result nil.Any) (= (to_real (select $H<Int> (reflect.Value.ptr target))) (bf.val c)))
 //@   ensures[C18] untouched: (=> (not (= result nil.Any)) (= (select $H<Int> (reflect.Value.ptr target)) (select (old $H<Int>) (reflect.Value.ptr target))))
 //
 //@ func gocty.fromCtyNumberFloat
